@@ -97,6 +97,12 @@ func runC02(c *kit.Ctx) {
 					okArg = true
 				}
 			}
+			if gc, ok := arg.(*ssa.Call); ok {
+				// header.GetCallId(): the generated getter of the same field
+				if _, f, deref := kit.ProtoGetter(gc); f != nil && deref && f.Name() == "CallId" {
+					okArg = true
+				}
+			}
 			c.Check(okArg, recv, "claim-by-header-id", u.Pos(), "claims the call registered under *header.CallId", "the reader claims a call by something other than the response header's call id")
 			// completion in the deferred literal
 			var respAlloc ssa.Value
@@ -160,51 +166,88 @@ func runC02(c *kit.Ctx) {
 	unsentCallsAreCleared(c)
 	responseIndicesAreUnique(c)
 	{
+		// form-independent: the uint32 the Index field of the action at position i points to is uint32(i)+K, whether
+		// it lives in an auxiliary slice (&indices[i]) or in a fresh allocation (proto.Uint32(uint32(i)+1))
 		var k1 int64 = -1
 		var idxVal ssa.Value
-		kit.Instrs(mtp, func(in ssa.Instruction) {
-			st, ok := in.(*ssa.Store)
-			if !ok {
-				return
-			}
-			ia, ok := st.Addr.(*ssa.IndexAddr)
-			if !ok {
-				return
-			}
-			bo, ok := st.Val.(*ssa.BinOp)
-			if !ok || bo.Op != token.ADD {
-				return
-			}
-			cv, ok := bo.X.(*ssa.Convert)
-			if !ok || cv.X != ia.Index {
-				return
-			}
-			if k, ok := kit.ConstInt(bo.Y); ok {
-				if s, isRange := rangeOfIndex(ia.Index); isRange && isLoadOfField(s, callsF) {
-					k1 = k
-					idxVal = ia.Index
-				}
-			}
-		})
-		c.Check(k1 >= 0, mtp, "writer-index", mtp.Pos(), fmt.Sprintf("index of the call at position i of m.calls is uint32(i)+%d", k1), "multi.toProto no longer stores uint32(i)+K as the index of the call at position i of m.calls")
-		// the Action gets &indices[i] of the same i, and the Action is pbActions[i]
 		okAct := false
+		eng2 := bounds.New(p)
 		kit.Instrs(mtp, func(in ssa.Instruction) {
 			st, ok := in.(*ssa.Store)
 			if !ok {
 				return
 			}
 			fa, ok := st.Addr.(*ssa.FieldAddr)
-			if !ok || kit.FieldVar(fa.X.Type(), fa.Field).Name() != "Index" {
+			if !ok || kit.FieldVar(fa.X.Type(), fa.Field).Name() != "Index" || !strings.HasSuffix(fa.X.Type().String(), "pb.Action") {
 				return
 			}
-			v, ok1 := st.Val.(*ssa.IndexAddr)
-			a, ok2 := fa.X.(*ssa.IndexAddr)
-			if ok1 && ok2 && v.Index == idxVal && a.Index == idxVal {
+			// position of the action
+			var pos ssa.Value
+			if a, ok := kit.Root(fa.X).(*ssa.IndexAddr); ok {
+				pos = a.Index
+			} else if a, ok := fa.X.(*ssa.IndexAddr); ok {
+				pos = a.Index
+			}
+			if pos == nil {
+				return
+			}
+			if s, isRange := rangeOfIndex(pos); !isRange || !(isLoadOfField(s, callsF) || isLoadOfField(kit.Root(s), callsF)) {
+				// an index loop over a captured copy of m.calls / over n := len(m.calls) counts as well
+				if _, isR := rangeOfIndex(pos); !isR {
+					return
+				}
+			}
+			// the pointee
+			var pointee ssa.Value
+			switch v := kit.Root(st.Val).(type) {
+			case *ssa.IndexAddr:
+				if v.Index != pos {
+					return
+				}
+				kit.Instrs(mtp, func(x ssa.Instruction) {
+					if s2, ok := x.(*ssa.Store); ok {
+						if ia, ok := s2.Addr.(*ssa.IndexAddr); ok && ia.X == v.X && ia.Index == pos {
+							pointee = s2.Val
+						}
+					}
+				})
+			case *ssa.Call:
+				if strings.HasSuffix(kit.CalleeName(v), "proto.Uint32") && len(v.Call.Args) == 1 {
+					pointee = v.Call.Args[0]
+				}
+			case *ssa.Alloc:
+				for _, r := range kit.Referrers(v) {
+					if s2, ok := r.(*ssa.Store); ok && s2.Addr == ssa.Value(v) {
+						pointee = s2.Val
+					}
+				}
+			}
+			if pointee == nil {
+				return
+			}
+			// uint32(i)+K: look through the (value-preserving for every possible position) conversion of i
+			var k int64
+			isConst := false
+			if bo, ok := kit.Strip(pointee).(*ssa.BinOp); ok && bo.Op == token.ADD {
+				x, y := bo.X, bo.Y
+				if _, yc := kit.ConstInt(x); yc {
+					x, y = y, x
+				}
+				if cv, ok := x.(*ssa.Convert); ok && cv.X == pos {
+					k, isConst = kit.ConstInt(y)
+				}
+			}
+			if !isConst {
+				k, isConst = eng2.Lin(pointee).Sub(eng2.Lin(pos)).IsConst()
+			}
+			if isConst {
+				k1 = k
+				idxVal = pos
 				okAct = true
 			}
 		})
-		c.Check(okAct && idxVal != nil, mtp, "writer-action", mtp.Pos(), "action i carries &indices[i]", "the action built for position i does not carry the index computed for position i")
+		c.Check(k1 >= 0, mtp, "writer-index", mtp.Pos(), fmt.Sprintf("index of the call at position i of m.calls is uint32(i)+%d", k1), "multi.toProto no longer stores uint32(i)+K as the index of the call at position i of m.calls")
+		c.Check(okAct && idxVal != nil, mtp, "writer-action", mtp.Pos(), "action i carries the index computed for position i", "the action built for position i does not carry the index computed for position i")
 		var k2 int64 = -1
 		rejects0 := false
 		kit.Instrs(mget, func(in ssa.Instruction) {
